@@ -520,7 +520,7 @@ impl<'a> MG<'a> {
                     let def = if nc == 0 || self.r.bool() { Some(self.block()) } else { None };
                     self.s(SK::Switch(c, cases, def))
                 }
-                17 => {
+                17 if !self.cfg.sem_safe => {
                     let n = self.name();
                     let a = self.operand();
                     let rhs = if self.r.bool() {
